@@ -193,8 +193,8 @@ class RoundTripCheck(Check):
     def run_shard(self, tier, seed, shard, nshards):
         from vlib import hyp
         res = ShardResult()
-        res.max_samples = 1
         name, part, nparts = self.jobs(tier)[shard]
+        res.max_samples = 1 if part == 0 else 0        # one evidence sample per architecture/mode
         arch = archlab.ARCHS[name]
         archlab.mn_of(arch)
         archlab.quiet_miasm_logs()
